@@ -63,7 +63,8 @@ type c13TARes struct {
 	FaultRecord string   `json:"fault_record,omitempty"` // state of _outs right after the fault: old | new
 	FaultOuts   string   `json:"fault_outs,omitempty"`   // raw _outs right after the fault (truncated to 400 bytes)
 	FaultFails  []string `json:"fault_fails,omitempty"`  // violated assertions on the state right after the fault
-	FaultPoint  string   `json:"fault_point,omitempty"`  // kill: what existed when the child died
+	FaultPoint  string   `json:"fault_point,omitempty"`  // kill: what existed when the child died; crashsim: the simulated point
+	Before0     c13Tree  `json:"before0,omitempty"`      // crashsim: the tree before the simulated partial post-process
 }
 
 func init() { register("C13W", c13Worker) }
@@ -256,6 +257,33 @@ func c13RunOne(c *Ctx, spec *c13TASpec, prepostFile string) *c13TARes {
 				c13RecordLeaves(spec.Mapped, j, res.Params, mon)
 			}
 			switch spec.Fault {
+			case "crashsim":
+				// deterministic crash point: an earlier post-process completed the move of the first
+				// FaultArg/3 movable leaves (in the real visiting order) and FaultArg%3 of the three
+				// steps (mkdir, rename, symlink) of the next one, then died; `_outs` is still the old
+				// record.  The PostProcess that follows is the restarted pass.
+				if preJ != nil {
+					var movable []c13SrcDest
+					for _, sd := range c13OrderedLeaves(spec.Mapped, res.Params, preJ, run.PsDir) {
+						if mon.kind[sd.src] == "reg" && mon.occ[sd.src] == 1 && strings.HasPrefix(sd.src, run.PsDir+"/") {
+							movable = append(movable, sd)
+						}
+					}
+					res.Before0 = res.Before
+					full, part := spec.FaultArg/3, spec.FaultArg%3
+					if full >= len(movable) && !(full == len(movable) && part == 0) {
+						res.FaultPoint = "beyond"
+					} else {
+						for j := 0; j < full; j++ {
+							c13SimulateMove(movable[j], 3)
+						}
+						if part > 0 {
+							c13SimulateMove(movable[full], part)
+						}
+						res.FaultPoint = fmt.Sprintf("leaf %d of %d, step %d", full, len(movable), part)
+						res.Before = c13Snapshot([]string{run.PsDir, ext}, cs, c13SkipMeta)
+					}
+				}
 			case "fsize":
 				restore = c13LimitFileSize(spec.FaultArg)
 			case "kill":
@@ -609,6 +637,30 @@ func c13TierA(c *Ctx, r *Result) {
 		}
 		specs = append(specs, spec)
 	}
+	// deterministic sweeps: every simulated crash point of a few programs, and the kill stream at
+	// every entry count of one (quick) or a few (thorough) programs
+	nsim, nkill, capSim, capKill := 3, 1, 37, 25
+	if c.Thorough {
+		nsim, nkill, capSim, capKill = 16, 5, 37, 40
+	}
+	for k := 0; k < nsim+nkill; k++ {
+		rng := rand.New(rand.NewSource(c.Rng.Int63()))
+		seed := rng.Int63()
+		sig := c13GenSmallSig(rng, 12)
+		mapped := []string{"", "", "array", "map"}[k%4]
+		src := sig.mro(mapped, k%3 == 1)
+		if k < nsim {
+			for p := 0; p <= capSim; p++ {
+				specs = append(specs, &c13TASpec{Name: fmt.Sprintf("ta-sweep%d-crashsim%d", k, p), Src: src, Seed: seed, Mapped: mapped,
+					Fault: "crashsim", FaultArg: p})
+			}
+		} else {
+			for p := 1; p <= capKill; p++ {
+				specs = append(specs, &c13TASpec{Name: fmt.Sprintf("ta-sweep%d-kill%d", k, p), Src: src, Seed: seed, Mapped: mapped,
+					Fault: "kill", FaultArg: p})
+			}
+		}
+	}
 	c13TACompare(c, r, specs, c13RunChildren(c, specs, 12), false)
 }
 
@@ -655,6 +707,9 @@ func c13CompareAll(c *Ctx, r *Result, specs []*c13TASpec, results []*c13TARes, c
 			r.hist("tierA:final:no-result")
 			continue
 		}
+		if os.Getenv("C13_TRACE") != "" {
+			fmt.Fprintf(os.Stderr, "tierA compare %s final=%s fault=%s/%d/%s\n", spec.Name, res.Final, spec.Fault, spec.FaultArg, res.FaultPoint)
+		}
 		r.hist("tierA:final:" + c13FinalClass(res.Final))
 		if res.Final == "compile-error" {
 			if !strings.HasSuffix(spec.Name, "-gen") {
@@ -696,14 +751,14 @@ func c13CompareAll(c *Ctx, r *Result, specs []*c13TASpec, results []*c13TARes, c
 			continue
 		}
 		if len(res.Fails) > 0 {
-			key := "C13:materialise"
+			key := c13CrashKey(res, "C13:materialise")
 			md := false
 			c13ForEachRecord(spec.Mapped, pre, func(_ string, rec *c13J) {
 				for _, p := range res.Params {
 					c13MultiDimLeaf(p.Ty, rec.get(p.Id), &md)
 				}
 			})
-			if md {
+			if md && key == "C13:materialise" {
 				key = "C13:multidim-file-array"
 			}
 			fails := make([]string, len(res.Fails))
@@ -731,7 +786,10 @@ func c13CompareAll(c *Ctx, r *Result, specs []*c13TASpec, results []*c13TARes, c
 				if strings.HasSuffix(fp, "-entries-under-outs") {
 					fp = "some-entries-under-outs"
 				}
-				r.hist("tierA:fault:kill:" + fp)
+				if strings.HasPrefix(fp, "leaf ") {
+					fp = "step-" + fp[len(fp)-1:]
+				}
+				r.hist("tierA:fault:" + spec.Fault + ":" + fp)
 			}
 			input["fault"] = spec.Fault
 			input["fault_arg"] = spec.FaultArg
@@ -751,6 +809,11 @@ func c13CompareAll(c *Ctx, r *Result, specs []*c13TASpec, results []*c13TARes, c
 					Expect: "_outs is the complete old record or a complete new one; every output's content intact at its source or its destination"})
 			}
 		}
+		if n := strings.Count(res.PreOuts, res.PsDir); n > 400 {
+			// the model's abstract file system is quadratic in the number of operations
+			r.hist("tierA:model-skipped-large-record")
+			continue
+		}
 		// model comparison
 		mode := map[string]string{"": "o", "array": "a", "map": "m"}[spec.Mapped]
 		altMode := ""
@@ -759,6 +822,8 @@ func c13CompareAll(c *Ctx, r *Result, specs []*c13TASpec, results []*c13TARes, c
 			mode += mode // second pass over the rewritten record
 		case spec.Fault == "fsize":
 			mode += "2" // second pass over the old record
+		case spec.Fault == "crashsim":
+			// correspondence: one pass from the simulated crash state (res.Before); convergence below
 		case spec.Fault == "kill":
 			// a prefix of the first pass, then a full pass: the tree of an uninterrupted run
 			// (or, when everything had been moved, of a second pass); the record is checked by the monitor only
@@ -792,6 +857,24 @@ func c13CompareAll(c *Ctx, r *Result, specs []*c13TASpec, results []*c13TARes, c
 				}
 			}
 		}
+		if spec.Fault == "crashsim" && res.Before0 != nil && res.FaultPoint != "beyond" {
+			// convergence: the tree must be the one an uninterrupted post-process produces
+			reply0 := c.Drv.Ask("C13.run", mode, "g", hx(res.PsDir), hx(filepath.Join(res.PsDir, "outs")), c13EncParams(res.Params),
+				pre.encStr(), res.Before0.enc(c13Ancestors(res.PsDir)))
+			if p0 := strings.Split(reply0, "\t"); len(p0) == 2 {
+				if d0 := c13TreeDiff(res.After, c13ParseTree(p0[1]), []string{res.PsDir, res.Ext}); len(d0) > 0 {
+					if len(d0) > 8 {
+						d0 = d0[:8]
+					}
+					for i := range d0 {
+						d0[i] = strip(d0[i])
+					}
+					r.violate(Violation{Kind: "property", Key: c13CrashKey(res, "C13:restart-does-not-converge"),
+						What:  "post-processing interrupted at " + res.FaultPoint + " and restarted: the pipestance tree is not the one an uninterrupted run produces",
+						Input: input, Impl: d0, Expect: "the tree the model computes for an uninterrupted post-process"})
+				}
+			}
+		}
 		if len(d) > 0 {
 			if len(d) > 8 {
 				d = d[:8]
@@ -800,7 +883,7 @@ func c13CompareAll(c *Ctx, r *Result, specs []*c13TASpec, results []*c13TARes, c
 				d[i] = strip(d[i])
 			}
 			if spec.Fault == "kill" {
-				r.violate(Violation{Kind: "property", Key: "C13:restart-does-not-converge",
+				r.violate(Violation{Kind: "property", Key: c13CrashKey(res, "C13:restart-does-not-converge"),
 					What:  "post-processing killed (" + res.FaultPoint + ") and restarted: the pipestance tree is not the one an uninterrupted run produces",
 					Input: input, Impl: d, Expect: "the tree the model computes for an uninterrupted post-process"})
 			} else {
@@ -812,4 +895,17 @@ func c13CompareAll(c *Ctx, r *Result, specs []*c13TASpec, results []*c13TARes, c
 			r.sample(map[string]interface{}{"tierA": res.Name, "mapped": spec.Mapped, "pre_outs": strip(res.PreOuts), "post_outs": strip(res.PostOuts)})
 		}
 	}
+}
+
+// c13CrashKey: after a kill or a simulated crash, "an existing file became null" is the signature
+// of F22 (kill between the rename into outs/ and leaving the symlink behind).
+func c13CrashKey(res *c13TARes, deflt string) string {
+	if res.Fault == "kill" || res.Fault == "crashsim" {
+		for _, f := range res.Fails {
+			if strings.Contains(f, "value of an existing file became null") {
+				return "C13:crash-between-rename-and-symlink"
+			}
+		}
+	}
+	return deflt
 }
